@@ -123,7 +123,7 @@ class CopyAges(object):
 
     def run_case(self, case):
         obs = H.run_world(case)
-        vs = H.judge(case, obs, 'C19|copy-ages')
+        vs = H.judge(case, obs, '%s|copy-ages' % getattr(self, 'prefix', 'C19'))
         return H.observation_key(obs), vs, len(obs['log'])
 
 
